@@ -1,7 +1,9 @@
 SPECIFICATION Spec
 CONSTANTS
   DevVerifyDisablesTofu = FALSE
+  DevSchemePrefixed = FALSE
 INVARIANT TofuAsRequested
 INVARIANT RedirectsAsRequested
 INVARIANT VerifyAsRequested
+INVARIANT UrlAsGiven
 CHECK_DEADLOCK FALSE
